@@ -5,6 +5,7 @@ import NutsModel.C18.RCache
 import NutsModel.C18.LocalStore
 import NutsModel.C18.DidKey
 import NutsModel.C18.X509
+import NutsModel.C18.DidJwk
 open Lean Nuts.Drv Nuts.C18 Nuts
 
 namespace Nuts.Drv.C18
@@ -208,6 +209,13 @@ def step (st : St) (j : Json) : St × List String :=
     | "x5f" => "x5f " ++ showRes (fun c => s!"ok:{c}") (findValidationCert (jNats j "ids") (xHdr j "x5t") (xHdr j "x5s"))
     | "x5r" => "x5r " ++ showRes (fun b => if b = d.str then "ok:same" else "ok:diff:" ++ hx b)
         (resolveX509 xTbl d.method d.id { chain := xChain j, x5t := xHdr j "x5t", x5tS256 := xHdr j "x5s", certs := xCerts j, crlOK := jBool j "crl", vmOK := true })
+    | "jwk" =>
+      -- did:jwk on the resolver itself: refusal order regenerated from the source, library verdicts on the decoded bytes as data
+      let lj := jObj j "lib"
+      let lib : JwkLib := { parseOK := jBool lj "parse", rawErr := jBool lj "rawerr", isPrivate := jBool lj "priv", pubRawErr := jBool lj "pubrawerr",
+                            isEC := jBool lj "ec", onCurve := jBool lj "oncurve", vmErr := jBool lj "vmerr" }
+      let decs := match b64Decode d.id with | .ok b => hx b | .err _ => "err" | .panic p => "panic:" ++ p
+      s!"jwk {(resolveJwkClass (jwkOrderOf Nuts.Facts.C18.jwkRefusals) d.method d.id (fun _ => lib)).str} dec={decs}"
     | "hc" => "hc " ++ String.intercalate ";" (hcSteps (RCache.new (jInt j "max")) (jArr j "steps") [])
     | o => "bad-op:" ++ o
   (st, [line])
